@@ -906,7 +906,13 @@ def gen_unregister_history(rng, hid):
     nsvc = rng.choice([1, 1, 2, 3])
     share = rng.choice(HOSTS) if rng.random() < 0.6 else None
     svcs = [pick_service(rng, cfg, k, share) for k in range(nsvc)]
-    steps = [{"t": T0, "d": 0, "calls": [{"op": "monitor", "ch": "m"}] + [{"op": "register", "svc": s} for s in svcs]}]
+    if rng.random() < 0.2:
+        svcs[0] = dict(svcs[0], ips="auto")          # addresses follow the interface table
+    first_calls = [{"op": "monitor", "ch": "m"}]
+    if rng.random() < 0.35:
+        # periodic interface check off: afterwards only the daemon's own timers wake it
+        first_calls.append({"op": "set_ip_check_interval", "secs": 0})
+    steps = [{"t": T0, "d": 0, "calls": first_calls + [{"op": "register", "svc": s} for s in svcs]}]
     T = T0 + j
     t = T0
     nops = rng.choice([1, 2, 3, 5])
@@ -1080,3 +1086,29 @@ def gen_prefix_tiebreak_history(rng, hid, offset=None):
     steps.append({"run_until": T + ph + 3500})
     return {"id": hid, "t0": T0, "daemons": [{"seed": seed, "ifaces": IFCFGS[cfg]}], "link": "none", "steps": steps,
             "meta": {"family": "prefix1", "ph": ph, "kind": kind}}
+
+
+def gen_goodbye_repeat_history(rng, hid, cfg=None, auto=None, ipcheck_off=True):
+    """One service on a single-family interface table (v4-only or v6-only), the periodic
+    interface check switched off, unregister after the announcements (or while probing), then a
+    timer-exact run: the repeat of the goodbye has to come from the daemon's own timer at +120 ms."""
+    cfg = cfg or rng.choice(["v4", "v6"])
+    auto = rng.random() < 0.5 if auto is None else auto
+    seed = rng.choice(list(FIRST_JITTER))
+    T = T0 + FIRST_JITTER[seed]
+    s = pick_service(rng, cfg, 0)
+    if auto:
+        s = dict(s, ips="auto")
+    calls = [{"op": "monitor", "ch": "m"}]
+    if ipcheck_off:
+        calls.append({"op": "set_ip_check_interval", "secs": 0})
+    calls.append({"op": "register", "svc": s})
+    steps = [{"t": T0, "d": 0, "calls": calls}]
+    ph = rng.choice([760, 900, 1750, 1751, 2000, 2500, 3000])
+    steps.append({"run_until": T + ph})
+    steps.append({"t": T + ph, "d": 0, "calls": [{"op": "unregister", "name": fullname_of(s), "ch": "u1"}]})
+    steps.append({"run_until": T + ph + rng.choice([119, 120, 121, 300, 1000])})
+    if rng.random() < 0.5:
+        steps.append({"t": T + ph + 1500, "d": 0, "dgrams": [queries_for(rng, s if not auto else dict(s, ips=ADDRS[cfg][0]), cfg)]})
+    return {"id": hid, "t0": T0, "daemons": [{"seed": seed, "ifaces": IFCFGS[cfg]}], "link": "none", "steps": steps,
+            "meta": {"family": "gbrepeat", "cfg": cfg, "auto": auto, "ph": ph}}
